@@ -25,4 +25,5 @@ MUTANTS = [
     {'id': 'c16-iterform-wrong-component-tested', 'props': ['C16'], 'expect': 'fire', 'keys': ['parentdir-refuses'], 'patch': 'patches/c16-iterform-wrong-component-tested.diff'},
     # correct twin of the seeded change C16 #4 (OpenOptions with create + truncate and a mode)
     {'id': 'c16-benign-openoptions-create-truncate', 'props': ['C16'], 'expect': 'silent', 'patch': 'patches/c16-openoptions-create-truncate.diff'},
+    {'id': 'c16-benign-create-helper-no-fast-path', 'props': ['C16'], 'expect': 'silent', 'patch': 'patches/c16-create-helper-no-fast-path.diff'},
 ]
